@@ -35,6 +35,9 @@ SIZES = (1, 2, 125, 126, 1000, 16383, 16384, 16385, 32768, 65535, 65536, 65537, 
 def cases(tier, seed, i, n):
     def allcases():
         rnd = random.Random(seed * 8629 + 18)
+        reals = [('tcp', 70000), ('tls', 70000), ('tcp', 200), ('tls', 200), ('tls', 16384 * 3), ('tcp', 300000)]
+        for r, (tr, size) in enumerate(reals):
+            yield dict(kind='real', transport=tr, size=size, nmsg=(5, 200)[r % 2])
         k = 0
         for tls in (False, True):
             for size in SIZES:
@@ -61,9 +64,6 @@ def cases(tier, seed, i, n):
                        rec=rnd.choice((16384, 16384, 1000, 4096, 333)) if tls else None,
                        short=rnd.choice((None, None, 1, 2, 50, 1000, 4096, 16000)) if tls else None,
                        nb=rnd.randint(1, 5), seed=rnd.randrange(1 << 30))
-        reals = [('tcp', 70000), ('tls', 70000), ('tcp', 200), ('tls', 200), ('tls', 16384 * 3), ('tcp', 300000)]
-        for r, (tr, size) in enumerate(reals):
-            yield dict(kind='real', transport=tr, size=size, nmsg=(5, 200)[r % 2])
         if tier == 'thorough':
             for r in range(54):
                 yield dict(kind='real', transport=('tcp', 'tls')[r % 2], size=rnd.choice((1, 126, 16384, 65536, 65537, 200000)),
